@@ -580,7 +580,8 @@ def main(argv):
         for stp in plan[tier]:
             st = {"props": [prop]}
             if stp["type"] in ("tlc-replay", "tlc-only"):
-                st["tlc"] = run_tlc(stp["module"], stp["cfg"], use_cache=os.environ.get("VERIF_NO_TLC_CACHE") is None, cfg_path=materialize_cfg(stp))
+                st["tlc"] = run_tlc(stp["module"], stp["cfg"], use_cache=os.environ.get("VERIF_NO_TLC_CACHE") is None, cfg_path=materialize_cfg(stp),
+                                    timeout=1500 if tier == "quick" else 10800)
                 log("TLC %s/%s: %s distinct states, %s generated, %.1fs%s" % (stp["module"], stp["cfg"], st["tlc"]["distinct"], st["tlc"]["states"], st["tlc"]["wall_s"], " (cached)" if st["tlc"]["cached"] else ""))
                 if stp["type"] == "tlc-only":
                     st["replay"] = {"cases_run": 0, "counts": {}, "samples": {}, "sigs": {}, "kept": []}
